@@ -7,7 +7,7 @@ import subprocess
 
 import taskdefs
 from framework import HARNESS, TRUSTED, Check
-from tla import OUT, ToolError, parse_printed, run_tlc, to_tla
+from tla import OUT, ToolError, parse_printed, run_tlc, to_tla, confirm_rejection
 
 OPS = ["run", "drop_runnable", "wake", "wake_by_ref", "clone_waker", "drop_waker", "cancel", "drop_token",
        "poll_promise", "drop_promise"]
@@ -87,8 +87,11 @@ def validate(script, with_promise, threads, runs, wd, tag):
             if n < pos + len(r):
                 accepted += i
                 k = n - pos
-                rejections.append((r, k, r[k] if k < len(r) else None, reason))
                 remaining = remaining[i + 1:]
+                if confirm_rejection(mod, mod + ".cfg", wd, tag, r, res, heap="4g"):
+                    rejections.append((r, k, r[k] if k < len(r) else None, reason))
+                else:
+                    accepted += 1
                 break
             pos += len(r)
         else:
